@@ -910,6 +910,13 @@ class _Simu(_IObserver, _params.Updatable, ABC):
             self.Bc_Init()
             # initialize the solutions
             self.__Init_Sols_n()
+            # and the history-dependent internal variables, which belong to the previous mesh
+            self._Init_internal_variables()
+
+    def _Init_internal_variables(self) -> None:
+        """Resets the internal variables of the simulation (history field, material state, ...).\n
+        Called when the mesh is replaced; overridden by the simulations that carry such variables."""
+        pass
 
     @property
     def Nmesh(self) -> int:
